@@ -862,6 +862,20 @@ def slice_(I, o, s):
     if isinstance(o, Sym) and o.kind == STR and o.parts is not None:
         from . import strparts as SP
         r = SP.NOTFOUND
+        ps0 = o.parts
+        if isinstance(hi, int) and hi >= 0 and (lo is None or (isinstance(lo, int) and lo >= 0)) and ps0 \
+                and isinstance(ps0[0], str) and len(ps0[0]) >= hi:
+            return ps0[0][(lo or 0):hi]
+        if hi is None and isinstance(lo, Sym):
+            r2 = SP.split_at_registered(I, o, lo)
+            if r2 is not SP.NOTFOUND:
+                r = r2[1]
+        elif (lo is None or lo == 0) and isinstance(hi, Sym) and not isinstance(lo, Sym):
+            r2 = SP.split_at_registered(I, o, hi)
+            if r2 is not SP.NOTFOUND:
+                r = r2[0]
+        if r is not SP.NOTFOUND:
+            return r
         if hi is None and isinstance(lo, int) and lo >= 0:
             r = SP.drop_prefix(o, lo)
         elif lo is None and isinstance(hi, int) and hi < 0:
